@@ -102,10 +102,8 @@ namespace Givaro {
         Rep& inv( Rep& r, const Rep& a ) const {
             if (&r == &a) return invin(r); // r.num would be overwritten before a.num is read
             const int snum( sign(a.num) );
-#ifdef __GIVARO_DEBUG
-            if (snum == 0)
+            if (snum == 0) // as operator/ does: 1/0 would be stored with a null denominator
                 throw GivMathDivZero("*** Error: division by zero, in operator Rational::inv in givrational.h") ;
-#endif
             r.num=a.den; r.den=a.num;
             if (snum < 0) {
                 Integer::negin(r.num);
@@ -115,10 +113,8 @@ namespace Givaro {
         }
         Rep& invin( Rep& r ) const {
             const int snum( sign(r.num) );
-#ifdef __GIVARO_DEBUG
             if (snum == 0)
                 throw GivMathDivZero("*** Error: division by zero, in operator Rational::invin in givrational.h") ;
-#endif
             std::swap(r.num,r.den);
             if (snum < 0) {
                 Integer::negin(r.num);
